@@ -41,7 +41,7 @@ def layer_specs(layers):
         if t == "throttle":
             L.update(count=1)
         if t == "poll":
-            L.update(interval=5.0, mode="second_call")
+            L.update(interval=5.0, mode="second_call", cancel_fn="consent")
         if t == "timeout":
             L.update(timeout=500.0)
         out.append(L)
@@ -271,6 +271,15 @@ class CW(object):
             got = sum(len(self.me.fut(k).cancel_calls) for k in it)
             if got == 0:
                 res.violation("cancel-not-propagated", "%s: outer cancel() did not reach the pending delegate future" % where)
+        # a cancel function that was asked and consented has done its part (e.g. cancelled the remote task): the
+        # cancel() call that asked must not then answer False and leave the future to "complete normally"
+        for (inv, ret, r, who) in self.cancels:
+            if r is False:
+                asked = [e for e in evs if e[3] == "fn.end" and str(e[4].get("fn", "")).startswith("pcancel") and inv < e[0] < ret
+                         and e[4].get("value") in ("True", True)]
+                if asked:
+                    res.violation("cancel-false-after-cancel-fn-consented", "%s: cancel() returned False although the cancel function had been "
+                                  "asked during that call (seq %d) and consented" % (where, asked[0][0]))
         res.count("cancel_calls", len(self.cancels))
         res.count("cancel_true", len(true_rets))
 
@@ -523,7 +532,8 @@ class NScenario(object):
 def run_comb(case, res):
     F = instr.ME.futures
     comb = case["comb"]
-    for n_done, in_state in ((0, "pending"), (1, "pending"), (0, "running"), (1, "running"), (0, "mixed")):
+    for n_done, in_state in ((0, "pending"), (1, "pending"), (0, "running"), (1, "running"), (0, "mixed"), (0, "first_cancelled"),
+                             (0, "last_cancelled")):
         begin("vt")
         ctx = Ctx()
         try:
@@ -532,6 +542,12 @@ def run_comb(case, res):
             for i, f in enumerate(ins):
                 if in_state == "running" or (in_state == "mixed" and i % 2 == 0):
                     f.set_running_or_notify_cancel()
+            pre_cancelled = None
+            if in_state in ("first_cancelled", "last_cancelled"):
+                # one input had been cancelled before the combinator was called
+                pre_cancelled = ins[0] if in_state == "first_cancelled" else ins[-1]
+                pre_cancelled.cancel()
+                del pre_cancelled.cancel_calls[:]
             shielded = []
             expect = list(ins)
             if comb == "zip":
@@ -554,6 +570,8 @@ def run_comb(case, res):
                 out = F.f_flat_map(ins[0], lambda x: ins[1])
                 expect = ins[:1]
             elif comb == "flat_map_inner":
+                if pre_cancelled is not None:
+                    continue  # (the outer input has to succeed for there to be an inner future)
                 out = F.f_flat_map(ins[0], lambda x: ins[1])
                 ins[0].set_result(1)
                 expect = ins[1:2]
@@ -579,11 +597,17 @@ def run_comb(case, res):
                     expect = expect[1:]
                 else:
                     continue
+            if pre_cancelled is not None:
+                expect = [f for f in expect if f is not pre_cancelled]
+                shielded = [f for f in shielded if f is not pre_cancelled]
             r = call("cancel", out.cancel)
             instr.advance(D)
             res.execs += 1
             check_common(res)
-            if comb == "apply":
+            if comb == "apply" and pre_cancelled is not None:
+                # the chain never got past the cancelled input: there is no input it is waiting for
+                expect = []
+            elif comb == "apply":
                 # f_apply awaits its inputs one after the other: the request goes to the input it
                 # is currently waiting for (the innermost pending work), which cancels the output
                 if not any(f.cancel_calls for f in expect):
